@@ -1012,7 +1012,17 @@ fn panic_contain(cfg: &Cfg) {
 fn pool_census(cfg: &Cfg) {
     use desync::scheduler::scheduler;
     let pool = cfg.pool();
-    setup(pool);
+    // `api`=1: the maximum is changed through the public `set_max_threads` (which eagerly starts threads) instead of the hook
+    let api = cfg.opt("api", 0) == 1;
+    let set_max = move |n: usize| {
+        if api {
+            scheduler().set_max_threads(n)
+        } else {
+            scheduler().verif_set_max_threads(n)
+        }
+    };
+    rt::set_census_limit(POOL_NAME, pool);
+    set_max(pool);
     let (n, phases) = (cfg.opt("n", 2) as usize, cfg.opt("phases", 0));
     let w = World::new();
     w.prelude(cfg);
@@ -1026,6 +1036,13 @@ fn pool_census(cfg: &Cfg) {
         }));
         objs.push(o);
     }
+    if phases == 5 {
+        // the maximum is raised by one while the others schedule
+        rt::set_census_limit(POOL_NAME, pool + 1);
+        hs.push(spawn(move || {
+            set_max(pool + 1);
+        }));
+    }
     if cfg.opt("dbg", 0) == 1 {
         // an observer formats the scheduler's Debug text (it takes the thread list and every busy flag) while the others schedule
         hs.push(spawn(move || {
@@ -1037,15 +1054,15 @@ fn pool_census(cfg: &Cfg) {
         join(h, &format!("sched{}", i));
     }
     rt::quiesce();
-    if pool == 0 && rt::created_threads_named(POOL_NAME) != 0 {
+    if pool == 0 && phases != 5 && rt::created_threads_named(POOL_NAME) != 0 {
         rt::violation("CENSUS a pool thread was created although the maximum is 0".into());
     }
     if phases == 4 {
         // one more thread than objects... a job on the most recently spawned pool thread panics (the thread is dead but not yet
         // reaped: no scheduling call follows); then the maximum is lowered and the pool brought down
         let newmax = pool + 2;
-        scheduler().verif_set_max_threads(newmax);
         rt::set_census_limit(POOL_NAME, newmax);
+        set_max(newmax);
         let mut extra = vec![];
         let mut bgs = vec![];
         for i in 0..newmax {
@@ -1062,7 +1079,7 @@ fn pool_census(cfg: &Cfg) {
         }
         rt::quiesce();
         let lower = 1;
-        scheduler().verif_set_max_threads(lower);
+        set_max(lower);
         scheduler().despawn_threads_if_overloaded();
         rt::set_census_limit(POOL_NAME, lower);
         if rt::live_threads_named(POOL_NAME) > lower {
@@ -1094,7 +1111,7 @@ fn pool_census(cfg: &Cfg) {
             }
         });
         let lower = if pool > 0 { pool - 1 } else { 0 };
-        scheduler().verif_set_max_threads(lower);
+        set_max(lower);
         scheduler().despawn_threads_if_overloaded();
         rt::set_census_limit(POOL_NAME, lower);
         if rt::live_threads_named(POOL_NAME) > lower {
@@ -1116,8 +1133,8 @@ fn pool_census(cfg: &Cfg) {
     } else if phases >= 1 {
         // raise the maximum by one and schedule blocking work on every object: exactly max threads may exist
         let newmax = pool + 1;
-        scheduler().verif_set_max_threads(newmax);
         rt::set_census_limit(POOL_NAME, newmax);
+        set_max(newmax);
         let mut bgs = vec![];
         for (i, o) in objs.iter().enumerate() {
             let bg = BGate::new();
@@ -1135,7 +1152,7 @@ fn pool_census(cfg: &Cfg) {
         if phases >= 2 {
             // lower the maximum: despawn must bring the pool down and return
             let lower = if pool > 0 { pool - 1 } else { 0 };
-            scheduler().verif_set_max_threads(lower);
+            set_max(lower);
             scheduler().despawn_threads_if_overloaded();
             rt::set_census_limit(POOL_NAME, lower);
             if rt::live_threads_named(POOL_NAME) > lower {
